@@ -10,7 +10,7 @@
 From Coq Require Import List ZArith QArith Bool.
 From PV Require Import lib.Sx lib.Str lib.Result.
 From PV Require Import model.Generated model.Detect spec.SpecDetect spec.SpecOwn extract.OrCommon.
-From PV Require Import model.OwnWrite spec.SpecOwnNodes model.OwnWriteScc model.TimeRead.
+From PV Require Import model.OwnWrite spec.SpecOwnNodes model.OwnWriteScc model.TimeRead model.OwnWriteDfxp.
 Import ListNotations.
 Open Scope Z_scope.
 
@@ -80,6 +80,12 @@ Definition sx_ocap (x : sx) : option ocap :=
 
 Definition req_c20_write (arg : sx) : sx :=
   match arg with
+  | SL [SI 0; SS lang; caps] =>       (* DFXP: one language, its code, its captions *)
+      match sx_listof sx_ocap caps with
+      | Some cs => let doc := dfxp_write_nodes lang cs in
+                   SL [SS doc; of_bool true; of_result of_optz (detect_format doc)]
+      | None => bad
+      end
   | SL [SI fmt; langs] =>
       match sx_listof (sx_listof sx_ocap) langs with
       | Some ls =>
